@@ -510,7 +510,8 @@ func (r *run) load(n *node, loc Loc) Value {
 	t := loc.T
 	if s := r.scalarSort(t); s != nil {
 		v := r.readCell(n, loc.Heap, loc.Idxs, s)
-		if f := r.typeRangeFact(t, v); !f.IsTrue() {
+		if f := r.typeRangeFact(t, v); !f.IsTrue() && !v.HasBound {
+			// (a read under a quantifier mentions the bound variable: no top-level typing fact for it)
 			r.assume(c.True(), f)
 		}
 		return Scalar{v}
@@ -518,6 +519,10 @@ func (r *run) load(n *node, loc Loc) Value {
 	switch u := t.Underlying().(type) {
 	case *types.Pointer:
 		ref := r.readCell(n, loc.Heap, loc.Idxs, smt.Int)
+		if !ref.HasBound && n != nil && !strings.HasPrefix(loc.Heap, "G$") {
+			r.assume(c.True(), c.Op("<", nil, ref, n.getPV("$alloc", smt.Int)))
+			r.assume(c.True(), c.Op(">=", nil, ref, c.IntC(0)))
+		}
 		return PtrV{r.rootLoc(u.Elem(), ref)}
 	case *types.Slice:
 		if ct, steps, ok := r.constHeap(loc.Heap); ok {
@@ -536,8 +541,14 @@ func (r *run) load(n *node, loc Loc) Value {
 		ln := r.readCell(n, loc.Heap+".len", loc.Idxs, r.idx())
 		cp := r.readCell(n, loc.Heap+".cap", loc.Idxs, r.idx())
 		sv := SliceV{Base: Loc{Heap: "E$" + typeKey(u.Elem()), Idxs: []*smt.Term{ref}, T: u.Elem()}, Off: off, Len: ln, Cap: cp}
-		for _, f := range r.sliceFacts(sv) {
-			r.assume(c.True(), f)
+		if !ref.HasBound {
+			for _, f := range r.sliceFacts(sv) {
+				r.assume(c.True(), f)
+			}
+			// a reference found in memory was allocated earlier (it is below the allocation counter)
+			if n != nil {
+				r.assume(c.True(), c.Op("<", nil, ref, n.getPV("$alloc", smt.Int)))
+			}
 		}
 		return sv
 	case *types.Struct:
